@@ -67,7 +67,7 @@ theorem unscaleCol_fromNumpyCol (sq : α → α) (c : Col α) : unscaleCol (from
   · rw [fromNumpyCol_of_ne sq h]
     unfold unscaleCol
     simp only [List.map_map]
-    have hs := guardScale_ne_zero (sq (varL (present c)))
+    have hs := scaleOf_ne_zero sq (present c)
     conv_rhs => rw [← List.map_id c]
     apply List.map_congr_left
     intro x _
